@@ -2,7 +2,8 @@
 
 PARTIAL = 'PARTIAL: '
 
-REG_PENDING = {
+REG_PENDING = {}
+REG13 = {
  'C13': dict(
     text='Lean 4 theorems over a model of sequence_alignment.py: the rolling-row DP equals the minimum cost over ALL '
          'explicit alignments (every pair of sequences, every cost triple, no size bound); returned alignments project to '
@@ -15,6 +16,15 @@ REG_PENDING = {
 }
 
 REG = {
+ 'C04': dict(
+    text='Lean 4 theorems: the engine\'s batched index pipeline (prepend blank frame, +1, repeat mask, zeroing, -1, filter), the '
+         'stand-alone groupby decoder and greedy_filtration all equal the CTC collapse of the first-arg-max path, for every '
+         'number of classes, frames and lines; batched decoding is line-wise. Tied to the real torch/numpy code by exact '
+         'correspondence (exhaustive arg-max patterns + random integer tensors with ties).',
+    note='Trusted: Lean kernel + 3 standard axioms; torch.argmax/np.argmax return the first maximum (exercised); the batched '
+         'torch ops act independently per line (modelled as List.map; exercised with batches of different content).',
+    technique='Lean 4 proof (pipeline = collapse, induction over frames) + differential correspondence',
+    ref='§5-C04'),
  'C15': dict(
     text='Lean 4 theorems over a model of merge_transcriptions_and_logits whose two slice expressions are REGENERATED from the '
          'Python source on every run (translator/merge.py -> Generated/Merge.lean): length law, one logits row per character, '
@@ -27,4 +37,5 @@ REG = {
     technique='Lean 4 proof over a model regenerated from source + differential correspondence',
     ref='§5-C15'),
 }
+REG.update(REG13)
 NOT_YET = {}
